@@ -502,12 +502,15 @@ def what_m(rec, cls, cnt, first):
 def stage_c(ctx, procs):
     n = ctx.pick(110, 1500)
     L = ctx.pick(3, 4)
-    gen = K.Gen(ctx.rng, foreign=0.35, flat=0.2)
+    gen = K.Gen(ctx.rng, foreign=0.35, flat=0.2, stack=0.3, tower=0.15)
+    nlong = [0, 0]
     recs, rejected = [], 0
     sid = 0
     stat = dict(enum=0, cut=0, fault=0, nested=0, again=0, cks=0, tabdiff=0)
     while len(recs) < n and sid < 3 * n:
         sid += 1
+        if sid % ctx.pick(30, 12) == 3:
+            gen.force = {'wide'}           # scale: every 30th (12th) schema has 10 and more named patterns
         rules = gen.schema()
         rec, oc, text = record_schema(ctx, sid, rules, L, ctx.rng)
         if rec is None:
@@ -524,6 +527,10 @@ def stage_c(ctx, procs):
         extra = [nm + [K.DIGEST] for nm in hitn[:40] + ctx.rng.sample(plain, min(10, len(plain)))] + [[K.DIGEST]]
         # ... while a trailing ParametersSha256Digest component is a component like any other (seed round 7)
         extra += [nm + [K.PDIGEST] for nm in hitn[:15] + ctx.rng.sample(plain, min(5, len(plain)))] + [[K.PDIGEST]]
+        # expanded names longer than L (references nested several levels deep): names chosen along the chains of the schema
+        longn = K.chain_names(rules, rec['alpha'], ctx.rng, L, limit=ctx.pick(8, 60))
+        extra += longn
+        nlong[0] += len(longn)
         allnames = rec['names'] + extra
         scout = scout_names(saved, allnames)
         # the history of the two long-lived checkers (direct, reloaded) and of the checkers constructed meanwhile
@@ -548,6 +555,7 @@ def stage_c(ctx, procs):
             nms.append(ni + 1); r1.append(a); r2.append(b)
             if a:
                 ctx.nt('C%d/%s' % (sid, '/'.join(nm)))
+                nlong[1] += len(nm) > L and nm[-1] not in (K.DIGEST, K.PDIGEST)
         h.finish()
         with_history(rec, ctx, h, ops, nms, r1, r2)
         names = rec['names']
@@ -558,8 +566,13 @@ def stage_c(ctx, procs):
              '%d names each up to length %d' % (len(recs), rejected, len(recs[0]['names']) if recs else 0, L))
     ctx.note('C: generator shapes: %d schemas with a constraint inherited onto a pattern that only the referring rule has, '
              '%d with a definition written like one chain of another rule' % (gen.stat['foreign'], gen.stat['flat']))
-    if len(recs) >= 50 and not (gen.stat['foreign'] and gen.stat['flat']):
-        raise tlc.MachineryError('C: generator dimension vacuous: %s' % gen.stat)
+    ctx.note('C: %d schemas where one pattern of an expanded name carries several constraints with mixed alternatives, %d with '
+             'references nested 3-4 deep that reach one rule twice, %d with 10 and more named patterns; %d names longer than '
+             '%d components chosen along the chains (%d of them match a rule)'
+             % (gen.stat['stack'], gen.stat['tower'], gen.stat['wide'], nlong[0], L, nlong[1]))
+    if len(recs) >= 50 and not (gen.stat['foreign'] and gen.stat['flat'] and gen.stat['stack'] and gen.stat['tower']
+                                and gen.stat['wide'] and nlong[1]):
+        raise tlc.MachineryError('C: generator dimension vacuous: %s %s' % (gen.stat, nlong))
     ctx.note('C: histories on the long-lived checkers: %(enum)d more enumerations (%(cut)d cut short before their end, '
              '%(fault)d aborted by a raising user function, %(nested)d suspended while others ran, %(again)d of a name whose '
              'earlier enumeration on that object was incomplete); %(cks)d checkers constructed meanwhile with other '
